@@ -472,7 +472,7 @@ class Hypergraph:
         remove_node
 
         """
-        for n in nodes:
+        for n in list(nodes):  # the iterable may be a live view of this network
             if n not in self:
                 warn(f"Node {n} not in hypergraph")
                 continue
@@ -1150,7 +1150,7 @@ class Hypergraph:
         remove_edge : remove a single edge.
 
         """
-        for idx in ebunch:
+        for idx in list(ebunch):  # the iterable may be a live view of this network
             for node in self._edge[idx].copy():
                 self._node[node].remove(idx)
             del self._edge[idx]
